@@ -171,7 +171,7 @@ C16_Unchanged(c, fullpre, fullpost) ==
 ComposeClauses(c, out, fullpre, fullpost, r) ==
     IF c.op = "compose2" /\ out = "ok" THEN
       << <<"C16_Unchanged", C16_Unchanged(c, fullpre, fullpost)>>,
-         <<"C16_Repeatable", r.hash1 = r.hash2>>,
+         <<"C16_Repeatable", r.hash1 = r.hash2 /\ (("hash_m1" \in DOMAIN r) => (r.hash_m1 = r.hash_m3 /\ r.hash_mk = r.hash1))>>,
          <<"C16_Complete", r.complete /\ r.closed>> >>
     ELSE <<>>
 
@@ -185,7 +185,7 @@ ParseClauses(pre, c, post, ret, r) ==
          <<"C15_PolicyRestored", r.policy_after = r.policy_before>>,
          <<"C15_FreshBehaviour", r.probe_same>>,
          <<"C15_NoHalfBuilt", (r.parse = "ok" /\ Len(ret) = 1) => (WF(post) /\ SelfContained(post, ret[1]))>>,
-         <<"C15_DanglingRejected", (c.kind = "dangle") => r.parse # "ok">>,
+         <<"C15_DanglingRejected", (c.kind \in {"dangle", "crosslib"}) => r.parse # "ok">>,
          <<"C15_ValidAccepted", (c.kind = "none") => r.parse = "ok">> >>
     ELSE <<>>
 
